@@ -79,57 +79,8 @@ Qed.
 (* FMA.  The all-finite case does not go through FMA_correct here: its span hypothesis
    quantifies over every canonical representation of the exact product (which may carry
    arbitrarily many low zero words); instead the shape of the product the model actually
-   computes is pinned down and a concrete bound (fma_span) is used. *)
-
-(* the exact product at a precision that holds all its digits: lx+ly words, exponent
-   exp x + exp y minus the normalisation shift *)
-Lemma umul_shape z x y zP :
-  WFfin x -> WFfin y -> mdigits (mant x) + mdigits (mant y) < 4294967296 - 18 ->
-  mdigits (mant x) + mdigits (mant y) <= prec z ->
-  umul z x y = Some zP -> dform zP = Ffinite ->
-  mdigits (mant zP) = mdigits (mant x) + mdigits (mant y) /\
-  exp x + exp y - 18 <= exp zP <= exp x + exp y.
-Proof.
-  intros Hx Hy Hlen Hp.
-  pose proof (WFfin_val_bounds x Hx) as HNx. pose proof (WFfin_val_bounds y Hy) as HNy.
-  destruct (WFfin_len x Hx) as [Hlx HLx]. destruct (WFfin_len y Hy) as [Hly HLy].
-  unfold umul.
-  set (Nx := val (mant x)) in *. set (Ny := val (mant y)) in *.
-  set (Lx := mdigits (mant x)) in *. set (Ly := mdigits (mant y)) in *.
-  assert (HNx0 : 0 < Nx) by (assert (0 < 10 ^ (Lx - 1)) by (apply pow10_pos; lia); lia).
-  assert (HNy0 : 0 < Ny) by (assert (0 < 10 ^ (Ly - 1)) by (apply pow10_pos; lia); lia).
-  unfold dec_mul. fold Nx Ny.
-  destruct (of_Z_pos_facts (Nx * Ny) ltac:(nia)) as (Hok & Hne & Hlast & Hval).
-  assert (Hzl : zlen (of_Z (Nx * Ny)) = zlen (mant x) + zlen (mant y)).
-  { apply zlen_of_Z; [lia|].
-    rewrite <- !pow10_19 by lia.
-    assert (0 < 10 ^ (Lx - 1)) by (apply pow10_pos; lia). assert (0 < 10 ^ (Ly - 1)) by (apply pow10_pos; lia).
-    split.
-    - apply Z.le_trans with (10 ^ (Lx - 1) * 10 ^ (Ly - 1)); [|nia].
-      rewrite <- Z.pow_add_r by lia. apply Z.pow_le_mono_r; lia.
-    - replace (19 * (zlen (mant x) + zlen (mant y))) with (Lx + Ly) by lia.
-      rewrite Z.pow_add_r by lia. nia. }
-  destruct (dnorm_spec _ Hok Hne Hlast) as (m' & sh & Ed & Hsh & Vm' & Lm' & Okm' & Nem' & Topm').
-  rewrite Ed.
-  assert (Hmd : mdigits m' = Lx + Ly) by (unfold mdigits; rewrite Lm', Hzl; cbv [DW]; lia).
-  clear Hok Hne Hlast Hval Vm' Ed HNx HNy HNx0 HNy0.
-  unfold setExpAndRound.
-  destruct (Z.ltb_spec (exp x + exp y - sh) MinExp); [intros E; injection E as <-; cbn [dform with_form]; discriminate|].
-  destruct (Z.ltb_spec MaxExp (exp x + exp y - sh)); [intros E; injection E as <-; cbn [dform with_form]; discriminate|].
-  unfold round. cbn [dform with_acc with_exp with_form with_mant mant prec].
-  assert (E1 : u32 (zlen m') = zlen m').
-  { unfold u32. apply Z.mod_small. unfold mdigits in Hmd. cbv [DW] in Hmd. pose proof (zlen_nonneg m'). lia. }
-  assert (E2 : u32 (zlen m' * DW) = Lx + Ly).
-  { unfold u32. rewrite Z.mod_small; [unfold mdigits in Hmd; lia|]. unfold mdigits in Hmd. cbv [DW] in *. pose proof (zlen_nonneg m'). lia. }
-  rewrite E1, E2.
-  destruct (Z.leb_spec (Lx + Ly) (prec z)); [|lia].
-  intros E _. injection E as <-. cbn [mant exp with_acc with_exp with_form with_mant].
-  split; [exact Hmd|]. rewrite i32_small by lia. lia.
-Qed.
-
-Definition fma_span (x y u : Dec) : Z :=
-  Z.max (mdigits (mant x) + mdigits (mant y)) (mdigits (mant u)) +
-  Z.abs ((exp x + exp y - (mdigits (mant x) + mdigits (mant y))) - (exp u - mdigits (mant u))).
+   computes is pinned down (umul_shape, L3/FmaProofs.v) and a concrete bound (fma_span,
+   ibid.) is used. *)
 
 Lemma FMA_finite_WF zu z x y u :
   WF x -> WF y -> WF u -> dform x = Ffinite -> dform y = Ffinite -> dform u = Ffinite ->
